@@ -259,6 +259,23 @@ func genC08(tier string, seed int64) (*Family, error) {
 			}
 		}
 	}
+	// a larger concrete pre-state (six and eight rules with distinct saliences) with a symbolic
+	// salience for the added or moved rule: the binary search takes several probes here
+	for _, v := range []struct{ id, sals, newName, desc string }{
+		{"six_add", "10,9,8,7,6,5", "x", "a seventh rule added to six installed ones"},
+		{"six_move", "10,9,8,7,6,5", "c", "the third of six installed rules re-submitted with another salience"},
+		{"eight_add", "20,18,16,14,12,10,8,6", "x", "a ninth rule added to eight installed ones"},
+	} {
+		sl := strings.Split(v.sals, ",")
+		var body strings.Builder
+		body.WriteString("\trb := newBuilder()\n\tspec := map[string]specRule{}\n\ttext := \"\"\n")
+		for k, sv := range sl {
+			nm := string(rune('a' + k))
+			fmt.Fprintf(&body, "\ttext += verRule(%q, 1, %s, \"d%s\")\n\tspec[%q] = specRule{1, %s, \"d%s\"}\n", nm, sv, nm, nm, sv, nm)
+		}
+		fmt.Fprintf(&body, "\tmustOK(rb.BuildRuleFromString(text), \"full build\")\n\tq := vnd.Int64(\"q\")\n\tmustOK(rb.BuildRuleWithIncremental(verRule(%q, 2, q, \"nn\")), \"incremental build\")\n\tspec[%q] = specRule{2, q, \"nn\"}\n\tcheckSet(rb, spec, []string{\"zz\"})\n", v.newName, v.newName)
+		add("S_"+v.id, "incremental/larger-set", v.desc, body.String())
+	}
 	// rejected calls leave the set alone
 	add("S_remove_nothing", "rejected", "removing an empty list fails and changes nothing",
 		pre(2)+"\terr := rb.RemoveRules(nil)\n\tvnd.Assert(err != nil, \"an empty removal list is rejected\")\n\tcheckSet(rb, spec, nil)\n")
